@@ -388,10 +388,10 @@ std::string gen(Rng &r, const Args &a) {
   }
   sync();
   // scenario library: scripted prefixes aimed at mechanisms of the two domains
-  if (r.below(5) == 0) {
+  if (r.below(3) == 0) {
     int64_t e = (int64_t)g.esz[0];
     int64_t c1 = r.range(-20, 20), c2 = r.range(-20, 20), c3 = r.range(-20, 20);
-    switch (r.below(10)) {
+    switch (r.below(11)) {
     case 0: // copy of a summary, then loads from both arrays (relation between summaries)
       if (can_assign && !g.single[0]) {
         int64_t j = r.range(0, 3);
@@ -431,6 +431,16 @@ std::string gen(Rng &r, const Args &a) {
                        : " (ainit 0 a0 (lin 0) (lin " + std::to_string(e - 1) + ") (lin " + std::to_string(c3) + ")) (arange 0 a0 (lin " + std::to_string(e) + ") (lin " + std::to_string(e - 1) + " (1 v0)) (lin " + std::to_string(c1) + "))")
           << " (astore 0 a0 (lin 0) (lin " << c2 << ") 0) (range 0 v1 0 " << r.range(1, 3) << ")"
           << " (aload 0 v2 a0 (lin 0 (" << e << " v1))) (aload 0 v3 a0 (lin " << e * r.range(0, 2) << "))";
+      }
+      break;
+    case 9: // range store over ONE element of an array that is already smashed (symbolic store, or join with a smashed
+            // value): it must stay a weak update of the summary; then loads from other cells
+      if (!g.single[0]) {
+        int64_t n = r.range(2, 4), k = r.range(0, n - 1);
+        o << " (ainit 0 a0 (lin 0) (lin " << n * e - 1 << ") (lin " << c1 << ")) (range 0 v1 0 " << n - 1 << ")"
+          << " (astore 0 a0 (lin 0 (" << e << " v1)) (lin " << c2 << ") 0)"
+          << " (arange 0 a0 (lin " << k * e << ") (lin " << (r.coin() ? k * e : k * e + e - 1) << ") (lin " << c3 << "))"
+          << " (aload 0 v2 a0 (lin " << ((k + 1) % n) * e << ")) (aload 0 v3 a0 (lin 0 (" << e << " v1)))";
       }
       break;
     case 8: // join of a value whose NUMERICAL part is top but whose array part is not (cells initialised with an
